@@ -231,19 +231,27 @@ _add(PropertySpec(
 
 _add(PropertySpec(
     'C04', 'other',
-    functions=['ampycloud.utils.utils.calc_base_height', 'ampycloud.wmo.height2code', 'ampycloud.data.CeiloChunk.metarize'],
-    lemmas=['cnt_frame', 'prop.C18.h.floor', 'prop.C18.h.tight', 'prop.C18.h.mono', 'prop.C18.h.three_digits', 'fp.floor100', 'fp.floor1000', 'fmt03.digits', 'fmt03.value'],
+    functions=['ampycloud.utils.utils.calc_base_height', 'ampycloud.wmo.height2code', 'ampycloud.data.CeiloChunk.metarize',
+               'ampycloud.data.CeiloChunk._calculate_base_height_for_selection', 'ampycloud.data.CeiloChunk._calculate_sligrolay_base_height'],
+    lemmas=['cnt_frame', 'cnt_ext', 'prop.C02.nosig', 'prop.C18.h.floor', 'prop.C18.h.tight', 'prop.C18.h.mono', 'prop.C18.h.three_digits', 'fp.floor100', 'fp.floor1000', 'fmt03.digits', 'fmt03.value'],
     bounded=_bounded('c04'),
     explanation=('PROVED (P): calc_base_height (real AST; Python slice arithmetic incl. vals[-0:]) takes the configured percentile over '
                  'exactly the look-back tail of the values handed in, hence a value between their minimum and maximum; height2code is the '
                  'floor to 100 ft / 1000 ft (never upward, also for the computed quotient in the standard model of rounding: fp.* lemmas), '
                  'monotone, three digits; metarize (real AST) sorts the table by ascending base and writes code = abbr ++ floor code.  '
-                 'ASSUMED + BOUNDED (B): that the values handed to calc_base_height are the time-ordered member hits after the ceilometer '
-                 'exclusion (pandas sort / mask semantics in _calculate_base_height_for_selection and _calculate_sligrolay_base_height, not yet '
-                 'under contract), min / max / mean / std (pandas reductions) and a finite non-negative fluffiness (LOWESS): recomputed '
-                 'natively on a scene grammar x percentile x look-back x exclusion subsets.'),
-    assumptions=[A_REAL, A_FP, 'np.percentile / slicing contracts (pyvc/lib.py)'],
-    not_decided=['selection of the member hits (pandas semantics; bounded only)', 'fluffiness finite (LOWESS numerics; bounded only)'],
+                 'PROVED (P, row dialect): _calculate_sligrolay_base_height (real AST, loop invariant + per-iteration obligations iter#0.*) '
+                 'calls the base routine exactly once per table row, on the mask "member of this set", with the hits of the excluded '
+                 'ceilometers left out iff more than MAX_HITS_OKTA0 other member hits remain in *this* set (count over this set: lemma '
+                 'cnt_ext), and stores the returned value in that row; _calculate_base_height_for_selection hands calc_base_height the '
+                 'configured look-back / percentile parameters unchanged and returns its result unchanged, which lies between two selected '
+                 'hits.  ASSUMED (pinned expression contract, checked by B): the argument expression '
+                 "self.data.sort_values('dt').loc[mask]['height'].values is the time-ordered heights of the selected hits.  "
+                 'ASSUMED + BOUNDED (B): min / max / mean / std (pandas reductions) and a finite non-negative fluffiness (LOWESS): '
+                 'recomputed natively on a scene grammar x percentile x look-back x exclusion subsets.'),
+    assumptions=[A_REAL, A_FP, 'np.percentile / slicing contracts (pyvc/lib.py)',
+                 'pandas row-frame contracts (pyvc/rows_model.py): column access, mask &, Series.apply / sum, .loc[row, col] =',
+                 'pinned argument: sort_values(dt).loc[mask][height].values = time-ordered selected heights'],
+    not_decided=['fluffiness finite (LOWESS numerics; bounded only)', 'time-ordering of the pinned selection expression (pandas; bounded only)'],
 ))
 
 _add(PropertySpec(
@@ -265,12 +273,15 @@ _add(PropertySpec(
 
 _add(PropertySpec(
     'C06', 'other',
-    functions=['ampycloud.data.CeiloChunk._get_min_sep_for_height', 'ampycloud.utils.utils.calc_base_height'],
+    functions=['ampycloud.data.CeiloChunk._get_min_sep_for_height', 'ampycloud.utils.utils.calc_base_height',
+               'ampycloud.data.CeiloChunk._calculate_base_height_for_selection'],
+    lemmas=['prop.C02.nosig'],
     bounded=_bounded('c06'),
     explanation=('PROVED (P): _get_min_sep_for_height returns the MIN_SEP_VALS entry of the height bin (left insertion point in the ascending '
                  'limits; lengths mismatch => AmpycloudError; index always in range); calc_base_height is the percentile of the look-back '
-                 'tail of what it is given (so decision-time and report-time bases agree whenever both hand in the same time-ordered '
-                 'selection).  NOT UNDER CONTRACT: the merge loop of _merge_close_groups and the re-merge pass of ncomp_from_gmm '
+                 'tail of what it is given, and _calculate_base_height_for_selection -- the one routine used both when deciding a merge '
+                 'and when reporting -- passes the configured parameters and the time-ordered selection of the mask it is given (so '
+                 'decision-time and report-time bases agree whenever both hand in the same mask).  NOT UNDER CONTRACT: the merge loop of _merge_close_groups and the re-merge pass of ncomp_from_gmm '
                  '(pandas diff / apply / drop, scikit-learn): the separation of the bases finally reported is checked natively on scenes '
                  'built to straddle the separation bins, with rows ascending / descending / shuffled, look-back and exclusion (B).'),
     assumptions=[A_REAL, 'MIN_SEP_LIMS ascending (documented meaning)'],
